@@ -23,6 +23,9 @@ struct ProbePlan {
     /// probes whose first / second reading is forced to literal 0
     zero_first: Vec<usize>,
     zero_second: Vec<usize>,
+    /// (probe, value): the first reading of this probe is exactly `value` (the clock jumps there between
+    /// two probes), the probe's own delta stays what it was
+    force_first: Option<(usize, u64)>,
 }
 
 fn layout(p: &ProbePlan) -> Vec<u64> {
@@ -31,6 +34,11 @@ fn layout(p: &ProbePlan) -> Vec<u64> {
     r.push(t);
     for i in 0..PROBES {
         t = t.wrapping_add(p.gap[i]);
+        if let Some((k, v)) = p.force_first {
+            if k == i {
+                t = v;
+            }
+        }
         let t1 = t;
         let t2 = t1.wrapping_add(p.d[i]);
         // the two loop-count readings in between: somewhere between t1 and t2
@@ -82,9 +90,9 @@ fn deltas_for_sum(rng: &mut Prng, s: u64) -> Vec<u64> {
     d
 }
 
-const CLASSES: [&str; 13] = [
+const CLASSES: [&str; 14] = [
     "healthy_mean", "sum_boundary", "zero_reading", "zero_delta", "backwards", "mod100", "stuck",
-    "mixture", "hostile", "pow2_mean", "table_mean", "tiny", "staircase",
+    "mixture", "hostile", "pow2_mean", "table_mean", "tiny", "staircase", "pool_zero",
 ];
 
 /// `forced`: (first-delta D, shape) for the used-generator scenarios:
@@ -111,6 +119,7 @@ fn gen_plan(rng: &mut Prng, forced: Option<(u64, u64)>) -> (ClockSpec, u64) {
         },
         zero_first: vec![],
         zero_second: vec![],
+        force_first: None,
     };
     // warm-up deltas: healthy, non-zero
     let warm: Vec<u64> = (0..WARMUP).map(|_| rng.range(50, 5000)).collect();
@@ -119,8 +128,8 @@ fn gen_plan(rng: &mut Prng, forced: Option<(u64, u64)>) -> (ClockSpec, u64) {
         deltas_for_sum(rng, s)
     };
     let mut measured: Vec<u64> = match CLASSES[class as usize] {
-        "healthy_mean" => {
-            let m = rng.range(0, 40);
+        "healthy_mean" | "pool_zero" => {
+            let m = rng.range(if CLASSES[class as usize] == "pool_zero" { 2 } else { 0 }, 40);
             healthy(rng, m)
         }
         "table_mean" => {
@@ -309,6 +318,22 @@ fn gen_plan(rng: &mut Prng, forced: Option<(u64, u64)>) -> (ClockSpec, u64) {
         }
     }
     let mut readings = layout(&plan);
+    if CLASSES[class as usize] == "pool_zero" && forced.is_none() {
+        // every probe folds the full 64 bits of its first reading into the pool (nothing else does): the
+        // first reading of the LAST probe is solved so that the pool is exactly 0 (or all ones, or equal to
+        // what it was before the test) when the test ends - a healthy timer all the same
+        let mut pool = 0u64;
+        for i in 0..PROBES - 1 {
+            pool = crate::models::jitter::lfsr_fold(pool, readings[1 + 4 * i]);
+        }
+        let target = *rng.pick(&[0u64, 0, u64::MAX, 1]);
+        if let Some(x) = crate::craft::solve_fold_to(pool, target) {
+            if x != 0 && x.wrapping_add(plan.d[PROBES - 1]) != 0 {
+                plan.force_first = Some((PROBES - 1, x));
+                readings = layout(&plan);
+            }
+        }
+    }
     if CLASSES[class as usize] == "hostile" {
         // a fully generic hostile script from the fault catalogue
         let faults = crate::clockgen::pick_faults(rng, &ALL_CF);
@@ -439,6 +464,7 @@ impl Scenario for C13 {
                 start: rng.range(1, 1 << 40),
                 zero_first: vec![],
                 zero_second: vec![],
+                force_first: None,
             };
             plan.d[PROBES - 1] = d;
             first.readings = layout(&plan);
